@@ -54,7 +54,7 @@ struct EffElem
 
 inline uint64_t value_for(int k, int op_idx, int elem_idx)
 {
-    return static_cast<uint64_t>(k + 1) * 1'000'000ull + static_cast<uint64_t>(op_idx) * 331ull + static_cast<uint64_t>(elem_idx) + 1ull;
+    return static_cast<uint64_t>(k + 1) * 1'000'000ull + (static_cast<uint64_t>(op_idx) * 2411ull) % 997'000ull + static_cast<uint64_t>(elem_idx) + 1ull;
 }
 inline int key_of_value(uint64_t v) { return static_cast<int>(v / 1'000'000ull) - 1; }
 
